@@ -13,6 +13,7 @@ judged line by line by TLC against AutofillTrace.tla.  The alarm is raised by TL
 """
 import glob
 import io
+import zlib
 import os
 import random
 from concurrent.futures import ThreadPoolExecutor
@@ -351,14 +352,21 @@ def execute(seqs):
     """Returns the trace event (without tid) for one abstract description."""
     from vc2_conformance.bitstream.vc2_autofill import autofill_and_serialise_stream
 
-    ev = {"ev": "stream", "ser": True, "aligned": True, "exc": ""}
+    # where in the file the stream is written is not part of a description: a third of the descriptions (chosen
+    # by a hash of the description, so that a replay makes the same choice) are serialised into a file object
+    # that already holds 5 bytes and is positioned after them; offsets `off` are relative to the stream's start
+    base = (0, 0, 5)[zlib.crc32(repr(seqs).encode()) % 3]
+    ev = {"ev": "stream", "ser": True, "aligned": True, "exc": "", "base": base, "prefix_ok": True}
     out_seqs = [[{"f": dict(u["f"], z={"m": "auto"}), "blen": u.get("blen", 0), "o": {}, "off": 0} for u in s] for s in seqs]
     ev["seqs"] = out_seqs
     try:
         stream = build_stream(seqs)
         f = io.BytesIO()
+        f.write(b"\xa5" * base)
         autofill_and_serialise_stream(f, stream)
         data = f.getvalue()
+        ev["prefix_ok"] = data[:base] == b"\xa5" * base
+        data = data[base:]
     except Exception as e:  # noqa: premise of C07 not met (or the code is broken: compared with the spec's prediction)
         ev["ser"] = False
         ev["exc"] = common.exc_signature(e)
@@ -669,6 +677,8 @@ def _slim(ev):
         "ev": "stream",
         "ser": ev["ser"],
         "aligned": ev["aligned"],
+        "base": ev.get("base", 0),
+        "prefix_ok": ev.get("prefix_ok", True),
         "seqs": [[{"f": u["f"], "blen": u["blen"], "o": u["o"], "off": u["off"]} for u in s] for s in ev["seqs"]],
     }
 
@@ -832,6 +842,10 @@ def run(ctx):
     revents = common.pmap(rand_case, rjobs)
     phases["execute_random_descriptions_s"] = round(time.time() - t0, 1)
     all_events = events + revents
+    nbased = sum(1 for e in all_events if e["ser"] and e.get("base", 0) > 0 and any(u["f"].get(k, {"m": "auto"})["m"] != "exp" for sq in e["seqs"] for u in sq for k in ("npo", "ppo")))
+    if nbased < 50 // sub:
+        raise RuntimeError("vacuous: only %d descriptions with automatic parse offsets were serialised into a file positioned after existing bytes" % nbased)
+    ctx.coverage["serialised_at_nonzero_file_position_with_automatic_offsets"] = nbased
     t0 = time.time()
     bad = validate_events(ctx, all_events, "G+random", chunks=ctx.pick(6, 12))
     phases["trace_validation_s"] = round(time.time() - t0, 1)
